@@ -284,6 +284,21 @@ Theorem C13_gc_uint16_refuted :
 Proof. exact uint16_wrap_loses_node. Qed.
 Print Assumptions C13_gc_uint16_refuted.
 
+(* Copies.  A trie and its copies (cpy := *t, SecureTrie.Copy) are handles with
+   value semantics in the model: an operation addressed to one handle leaves
+   every other handle exactly as it was, and a copy starts as its source.  In
+   the Go code the handles share nodes copy-on-write; that no operation on one
+   handle shows through another is what the harness checks after every step of
+   every history with copies (root = root of the handle's own map, every key,
+   iteration, on throw-away copies so that no cached hash is left behind). *)
+Theorem C13_copies_are_independent :
+  (forall hs j op i, i <> j -> nth i (h_apply hs (HOp j op)) Empty = nth i hs Empty) /\
+  (forall hs j i, (i < length hs)%nat -> nth i (h_apply hs (HCopy j)) Empty = nth i hs Empty) /\
+  (forall hs j, nth (length hs) (h_apply hs (HCopy j)) Empty = nth j hs Empty) /\
+  (forall hs j op, (j < length hs)%nat -> nth j (h_apply hs (HOp j op)) Empty = apply_op (nth j hs Empty) op).
+Proof. exact copies_independent. Qed.
+Print Assumptions C13_copies_are_independent.
+
 (* ---- non-vacuity ---------------------------------------------------------- *)
 
 Definition ex_ops1 : list kvop :=
